@@ -524,6 +524,30 @@ func (ip *Interp) runClosure(fn *ssa.Function, args []any, binds []any, depth in
 					delete(env, x)
 					continue
 				}
+				// an array sliced with constant bounds (make([]T, 1) is `new [1]T` sliced [:1])
+				if ad, isA := base.(iAddr); ok && isA && ad.idx == -1 && (x.Low != nil || x.High != nil) {
+					lo, hi, known := 0, len(ad.arr.elems), true
+					for _, bd := range []struct {
+						v   ssa.Value
+						dst *int
+					}{{x.Low, &lo}, {x.High, &hi}} {
+						if bd.v == nil {
+							continue
+						}
+						bv, bok := get(bd.v)
+						bc, isK := bv.(constant.Value)
+						if !bok || !isK || bc.Kind() != constant.Int {
+							known = false
+							continue
+						}
+						n, _ := constant.Int64Val(bc)
+						*bd.dst = int(n)
+					}
+					if known && lo >= 0 && lo <= hi && hi <= len(ad.arr.elems) {
+						env[x] = iSlice{ad.arr, lo, hi}
+						continue
+					}
+				}
 				if ok && x.Low == nil && x.High == nil && x.Max == nil {
 					if ad, isA := base.(iAddr); isA && ad.idx == -1 {
 						env[x] = iSlice{ad.arr, 0, len(ad.arr.elems)}
@@ -1551,6 +1575,28 @@ func libModel(name string, args []any) (any, bool) {
 		return "", false
 	}
 	switch name {
+	case "sort.Strings", "slices.Sort[[]string string]", "slices.Sort":
+		// a slice of known strings is sorted in place
+		if len(args) != 1 {
+			return nil, false
+		}
+		sl, ok := args[0].(iSlice)
+		if !ok || sl.arr == nil {
+			return nil, false
+		}
+		var ks []string
+		for _, e := range sl.arr.elems[sl.lo:sl.high] {
+			c, isC := e.(constant.Value)
+			if !isC || c.Kind() != constant.String {
+				return nil, false
+			}
+			ks = append(ks, constant.StringVal(c))
+		}
+		sort.Strings(ks)
+		for i, k := range ks {
+			sl.arr.elems[sl.lo+i] = constant.MakeString(k)
+		}
+		return iObj{kind: "nothing"}, true
 	case "errors.New", "fmt.Errorf":
 		return iObj{kind: "error"}, true // a non-nil error, whatever it says
 	case "slices.Contains":
